@@ -7,6 +7,7 @@ import MotoModel.Proofs.DiskPreserve
 import MotoModel.Proofs.DiskHistory
 import MotoModel.Proofs.DiskPlace
 import MotoModel.Props.C10
+import MotoModel.Proofs.GenFn
 namespace Moto.C05
 open Moto Moto.Disk
 
@@ -14,6 +15,13 @@ open Moto Moto.Disk
 theorem usage_sum_160 (sd : Side) (bat : List Nat) (h : getBat sd = .ok bat) :
     (computeUsage bat).used + (computeUsage bat).reserved + (computeUsage bat).free = 160 := by
   rw [usage_sum, getBat_length sd bat h]
+
+/-- **C05 (the usage count, tied by translation)**: `computeUsage` of controller.py — one pass over
+    the table with three counters — translated from the source on every run, counts what the model
+    counts, for every table -/
+theorem generated_usage (bat : List Nat) :
+    Gen.Fn.computeUsage bat = ((computeUsage bat).used, (computeUsage bat).reserved, (computeUsage bat).free) :=
+  GenFn.computeUsage_eq bat
 
 /-- **C05 (reserved blocks are never handed out)**: whatever the table, the blocks chosen for a
     new file are free blocks, hence never a reserved one (table, catalog, extra reserved blocks) -/
